@@ -1,8 +1,17 @@
 #!/bin/sh
-# usage: design_from.sh <agent> <base> <title> : append the lines the agent added to its DESIGN.md to /verif/DESIGN.md §12
+# usage: design_from.sh <agent> <base> <title> : insert the lines the agent added to its DESIGN.md at the end of /verif/DESIGN.md §12 (before §13)
 A=$1; B=$2; T=$3
 (cd /root/w/$A/verif && git diff $B..HEAD -- DESIGN.md) | grep '^+' | grep -v '^+++' | sed 's/^+//' > /tmp/design_$A.txt
 if [ -s /tmp/design_$A.txt ]; then
-  { echo; echo "### $T (text of the builder's DESIGN.md additions)"; echo; cat /tmp/design_$A.txt; } >> /verif/DESIGN.md
+  python3 - "$A" "$T" <<'PY'
+import sys
+a,t=sys.argv[1],sys.argv[2]
+add=open("/tmp/design_%s.txt"%a).read()
+s=open("/verif/DESIGN.md").read()
+mark="\n\n## 13. Defects shown"
+i=s.index(mark)
+s=s[:i]+"\n\n### %s (text of the builder's DESIGN.md additions)\n\n"%t+add.rstrip("\n")+"\n"+s[i:]
+open("/verif/DESIGN.md","w").write(s)
+PY
   wc -l /tmp/design_$A.txt
 else echo "no DESIGN changes by $A"; fi
